@@ -63,7 +63,7 @@ def _pair(s, rep, spelling_rep, spelling_s, method='ref'):
 
 def _c10_relative_relative_A(s: str) -> bool:
     """
-    pre: len(s) <= 2 and name_ok(s) and s != 'A'
+    pre: 1 <= len(s) <= 2 and 33 <= ord(s[0]) <= 126 and 33 <= ord(s[-1]) <= 126 and ':' not in s and '/' not in s and '%' not in s and '.' not in s and '=' not in s and s != 'A'
     post: _
     """
     return _pair(s, 'A', 'rel', 'rel')
@@ -75,7 +75,7 @@ def _c10_relative_relative_A_pre(s):
 
 def _c10_relative_relative_AB(s: str) -> bool:
     """
-    pre: len(s) <= 2 and name_ok(s) and s != 'AB'
+    pre: 1 <= len(s) <= 2 and 33 <= ord(s[0]) <= 126 and 33 <= ord(s[-1]) <= 126 and ':' not in s and '/' not in s and '%' not in s and '.' not in s and '=' not in s and s != 'AB'
     post: _
     """
     return _pair(s, 'AB', 'rel', 'rel')
@@ -87,7 +87,7 @@ def _c10_relative_relative_AB_pre(s):
 
 def _c10_absolute_relative_A1(s: str) -> bool:
     """
-    pre: len(s) <= 2 and name_ok(s) and s != 'A1'
+    pre: 1 <= len(s) <= 2 and 33 <= ord(s[0]) <= 126 and 33 <= ord(s[-1]) <= 126 and ':' not in s and '/' not in s and '%' not in s and '.' not in s and '=' not in s and s != 'A1'
     post: _
     """
     return _pair(s, 'A1', 'abs', 'rel') and _pair(s, 'A1', 'rel', 'abs') and _pair(s, 'A1', 'abs', 'abs')
@@ -99,7 +99,7 @@ def _c10_absolute_relative_A1_pre(s):
 
 def _c10_output_contents_A(s: str) -> bool:
     """
-    pre: len(s) <= 2 and name_ok(s) and s != 'A'
+    pre: 1 <= len(s) <= 2 and 33 <= ord(s[0]) <= 126 and 33 <= ord(s[-1]) <= 126 and ':' not in s and '/' not in s and '%' not in s and '.' not in s and '=' not in s and s != 'A'
     post: _
     """
     r1 = lambda: HRef('stage0.A/o.txt:output', 0, 'contents-rep')
@@ -112,7 +112,7 @@ _c10_output_contents_A_pre = _c10_relative_relative_A_pre
 
 def _c10_same_name_two_stages(s: str) -> bool:
     """
-    pre: len(s) <= 2 and name_ok(s)
+    pre: 1 <= len(s) <= 2 and 33 <= ord(s[0]) <= 126 and 33 <= ord(s[-1]) <= 126 and ':' not in s and '/' not in s and '%' not in s and '.' not in s and '=' not in s
     post: _
     """
     r0 = lambda: HRef('stage0.%s:ref' % s, 0, '/P-stage0')
@@ -126,7 +126,7 @@ def _c10_same_name_two_stages_pre(s):
 
 def _c10_literal_text_untouched(s: str) -> bool:
     """
-    pre: len(s) <= 3 and all('!' <= c <= '~' for c in s) and ':' not in s
+    pre: 1 <= len(s) <= 3 and 33 <= ord(s[0]) <= 126 and 33 <= ord(s[-1]) <= 126 and (len(s) < 3 or 33 <= ord(s[1]) <= 126) and ':' not in s
     post: _
     """
     r1 = lambda: HRef('stage0.A:ref', 0, '/P-rep')
@@ -140,7 +140,7 @@ def _c10_literal_text_untouched_pre(s):
 
 def _c10_unused_and_undeclared_reported(s: str) -> bool:
     """
-    pre: len(s) <= 2 and name_ok(s) and s != 'A'
+    pre: 1 <= len(s) <= 2 and 33 <= ord(s[0]) <= 126 and 33 <= ord(s[-1]) <= 126 and ':' not in s and '/' not in s and '%' not in s and '.' not in s and '=' not in s and s != 'A'
     post: _
     """
     out, n_unresolved, n_unused = resolve('A:ref', [HRef('stage0.A:ref', 0, '/P'), HRef('stage0.%s:ref' % s, 0, '/Q')])
